@@ -101,6 +101,11 @@ func spec(nonce int) []byte {
 				// a schema with a pattern and no type, shared with a body schema (Dog.code)
 				map[string]any{"name": "c", "in": "query", "schema": map[string]any{"$ref": "#/components/schemas/Code"}}},
 			"responses": map[string]any{"default": map[string]any{"description": "d"}}}},
+		// a vendor media type nobody has registered a decoder for, new in every case: the first time the
+		// library meets it is during the concurrent part
+		"/vendor": map[string]any{"post": map[string]any{
+			"requestBody": map[string]any{"required": true, "content": map[string]any{fmt.Sprintf("application/vnd.acme.v%d+json", nonce): map[string]any{"schema": map[string]any{"$ref": "#/components/schemas/Item"}}}},
+			"responses":   map[string]any{"200": map[string]any{"description": "ok"}}}},
 		// a secured operation with a body: each alternative requirement looks at the request, body included
 		"/secure": map[string]any{"post": map[string]any{
 			"security":    []any{map[string]any{"key": []any{}}, map[string]any{"alt": []any{}}},
@@ -300,6 +305,19 @@ func (w *world) run(op Op) string {
 			b, _ = io.ReadAll(req.Body)
 		}
 		return "request-valid:" + string(b) + "?" + req.URL.RawQuery
+	case "request-vendor":
+		bs := w.bodies()
+		req, _ := http.NewRequest("POST", "http://localhost/vendor", strings.NewReader(bs[op.Variant%len(bs)]))
+		req.Header.Set("Content-Type", fmt.Sprintf("application/vnd.acme.v%d+json", w.nonce))
+		route, pp, err := w.gmux.FindRoute(req)
+		if err != nil {
+			return "route-error"
+		}
+		in := &openapi3filter.RequestValidationInput{Request: req, PathParams: pp, Route: route, Options: &openapi3filter.Options{MultiError: op.Variant%2 == 0}}
+		if err := openapi3filter.ValidateRequest(context.Background(), in); err != nil {
+			return "vendor-invalid"
+		}
+		return "vendor-valid"
 	case "request-secured":
 		// the way a server hands a request over: a one-shot body, no GetBody
 		bs := w.bodies()
@@ -536,7 +554,7 @@ func trunc(s string) string {
 	return s
 }
 
-var opKinds = []string{"route-g", "route-l", "request", "request", "request-skip", "request-ci", "request-secured", "request-secured", "response", "visit", "visit-multi", "visit-req", "visit-ci", "gen", "match", "match", "visit-typed", "visit-pet"}
+var opKinds = []string{"route-g", "route-l", "request", "request", "request-skip", "request-ci", "request-secured", "request-secured", "request-vendor", "response", "visit", "visit-multi", "visit-req", "visit-ci", "gen", "match", "match", "visit-typed", "visit-pet"}
 
 func caseInsensitive(expr string) (openapi3.RegexMatcher, error) {
 	return regexp.Compile("(?i)" + expr)
